@@ -62,6 +62,30 @@ def assign_kinds(deps, variant):
     return kinds
 
 
+def const_expr(n, ds, kinds, consts):
+    """(text, value) of constant n: the operand spelling varies with n so that
+    every way a name can sit in an expression is covered (blanks or not,
+    + - * << |, parentheses); `consts` holds the values of earlier constants
+    (missing ones count as 0 - used only when rendering the text)."""
+    ops = []
+    for d in ds:
+        ops.append(("C%d" % d, consts.get(d, 0)) if kinds[d] == "constant" else ("N%d_A" % d, d))
+    form = n % 5
+    if not ops:
+        return str(n), n
+    names = [o[0] for o in ops]
+    vals = [o[1] for o in ops]
+    if form == 0:
+        return " + ".join(names + [str(n)]), sum(vals) + n
+    if form == 1:
+        return "+".join(names) + "-0+%d" % n, sum(vals) + n
+    if form == 2:
+        return "(" + "+".join(names) + ")*2+%d" % n, sum(vals) * 2 + n
+    if form == 3:
+        return "%s<<1" % names[0] + "".join("+" + x for x in names[1:]), vals[0] * 2 + sum(vals[1:])
+    return "%d+" % n + "*1+".join(names) + "*1", n + sum(vals)
+
+
 def isar_elements(deps, kinds):
     """-> {node: xml element text}; names: N<i> (types), C<i> (constants)"""
     def nm(n):
@@ -70,11 +94,7 @@ def isar_elements(deps, kinds):
     for n, ds in deps.items():
         k = kinds[n]
         if k == "constant":
-            terms = []
-            for d in ds:
-                terms.append(nm(d) if kinds[d] == "constant" else "N%d_A" % d)
-            val = " + ".join(terms + [str(n)])
-            out[n] = '<constant name="%s" value="%s"/>' % (nm(n), xml_escape(val))
+            out[n] = '<constant name="%s" value="%s"/>' % (nm(n), xml_escape(const_expr(n, ds, kinds, {})[0]))
         elif k == "enum":
             out[n] = ('<enum name="%s"><enum-member name="%s_A" value="%d"/><enum-member name="%s_B" value="%d"/></enum>'
                       % (nm(n), nm(n), n, nm(n), n + 10))
@@ -111,10 +131,7 @@ def schema_env_for_graph(deps, kinds):
     for n in order:
         k, ds = kinds[n], deps[n]
         if k == "constant":
-            v = n
-            for d in ds:
-                v += consts[d] if kinds[d] == "constant" else d      # N<d>_A = d
-            consts[n] = v
+            consts[n] = const_expr(n, ds, kinds, consts)[1]
             continue
         if k == "enum":
             defs.append(S.EnumDef([n, n + 10]))
